@@ -380,6 +380,68 @@ def special_concurrent(prop, sc, tier, seed, harness, repo):
             "failures": failures[:3], "samples": []}
 
 
+def special_listener(prop, sc, tier, seed, harness, repo):
+    """the tree builder (parser_listener.go): two passes. The implementation side dumps, per generated script, the ANTLR parse
+    tree and the tree the listener built from it; the parse tree is handed to the Lean model of the listener, which must
+    build the same tree (and say that its one-clause-per-production translation agrees: SPEC same)."""
+    import subprocess, os
+    n = sc["thorough"] if tier == "thorough" else sc["quick"]
+    r = subprocess.run([harness, "gen", "listener", sc["profile"], str(seed), str(n)], capture_output=True, text=True)
+    lines = [l for l in r.stdout.split("\n") if l]
+    env = dict(os.environ, GOMAXPROCS="8", GOMEMLIMIT="4GiB")
+    p = subprocess.run([harness, "run"], input="\n".join(lines) + "\n", capture_output=True, text=True, timeout=3000, env=env)
+    impl = {}
+    for line in p.stdout.split("\n"):
+        q = line.split("\t", 2)
+        if len(q) == 3:
+            impl.setdefault(q[0], []).append(q[2])
+    cases2 = []
+    for line in lines:
+        cid = re.match(r"\(case \S+ (\S+)", line).group(1)
+        io = impl.get(cid)
+        if not io:
+            continue
+        if io[0].startswith("TREE "):
+            cases2.append(f"(case listener {cid} (tree {io[0][5:]}))")
+        elif io[0] == "LOADERR":
+            cases2.append(f"(case listener {cid} (loaderr))")
+        else:
+            cases2.append(f"(case listener {cid} (panic))")
+    exe = os.path.join(os.path.dirname(os.path.dirname(os.path.abspath(__file__))), "lean", ".lake", "build", "bin", "ysgo-model")
+    mo = subprocess.run([exe], input="\n".join(cases2) + "\n", capture_output=True, text=True, timeout=3000)
+    model = {}
+    for l in mo.stdout.split("\n"):
+        q = l.split("\t", 2)
+        if len(q) == 3:
+            model.setdefault(q[0], []).append(q[2])
+    failures, agree, kinds, distinct = [], 0, {}, set()
+    died = p.returncode != 0
+    for line in lines:
+        cid = re.match(r"\(case \S+ (\S+)", line).group(1)
+        io, mo_ = impl.get(cid), model.get(cid, [])
+        if not io:
+            if died:
+                failures.append({"case": line, "kind": "the implementation process died on this input (or an earlier one): " + p.stderr[-300:], "impl": [], "model": [], "concrete": True})
+                died = False
+            continue
+        kinds[io[0].split(" ")[0]] = kinds.get(io[0].split(" ")[0], 0) + 1
+        if any(o == "PANIC" for o in io):
+            failures.append({"case": line, "kind": "parsing or the tree builder panicked", "impl": [o[:2000] for o in io], "model": [m[:2000] for m in mo_], "concrete": True})
+        elif any(m.startswith("UNMODELLED") for m in mo_):
+            kinds["outside_model_domain"] = kinds.get("outside_model_domain", 0) + 1
+        elif io != mo_:
+            k = next((i for i in range(min(len(io), len(mo_))) if io[i] != mo_[i]), min(len(io), len(mo_)))
+            failures.append({"case": line, "kind": f"the tree built by the implementation differs from the listener model at observation {k}",
+                             "impl": [o[:3000] for o in io], "model": [m[:3000] for m in mo_], "concrete": True})
+        else:
+            agree += 1
+            if io[0].startswith("TREE "):
+                distinct.add(hash(io[0]))
+    stats = {"cases": len(lines), "agree": agree, "distinct_nontrivial": len(distinct)}
+    stats.update({"class_" + k: v for k, v in kinds.items()})
+    return {"stats": stats, "failures": failures[:5], "samples": []}
+
+
 def special_load(prop, sc, tier, seed, harness, repo):
     """C05: two passes. The implementation side reports, per case, the oracle values of an independent lexer+parser and the
     outcome class of NewDialogueRunner; the oracle values are then handed to the Lean model of the load decision."""
@@ -533,8 +595,13 @@ def runprop(profile, fields, elem_fields, quick, thorough, predicate=no_panic, n
 
 PROPERTIES = {
     "C01": runprop("flow", ("res",), ("text", "dis"), 1500, 60000, nontrivial=run_nontrivial(3, ("O",)),
-                   rule="run/flow: random 1-4 node programs (nested options, if/elseif/else, set/declare, jumps by name and expression, stop, call, commands) x random in-range choices; non-trivial = at least 3 elements shown incl. an option group; distinct by hash of the case payload",
-                   leanchecker=["Ysgo.Props.C01"]),
+                   # the tree builder: ANTLR parse tree of every generated script -> listener model -> same tree as the code built
+                   extra_streams=[{"stream": "listener", "profile": "mixed", "quick": 1500, "thorough": 60000, "special": special_listener},
+                                  {"stream": "listener", "profile": "nest", "quick": 600, "thorough": 30000, "special": special_listener},
+                                  {"stream": "listener", "profile": "cmds", "quick": 400, "thorough": 20000, "special": special_listener},
+                                  {"stream": "listener", "profile": "mutate", "quick": 800, "thorough": 40000, "special": special_listener}],
+                   rule="listener: the ANTLR parse tree of generated scripts (all statement kinds, nesting, expressions, commands; byte mutations) is handed to the Lean model of parser_listener.go, which must build exactly the tree the code built and agree with the one-clause-per-production translation; run/flow: random 1-4 node programs (nested options, if/elseif/else, set/declare, jumps by name and expression, stop, call, commands) x random in-range choices; non-trivial = at least 3 elements shown incl. an option group; distinct by hash of the case payload",
+                   leanchecker=["Ysgo.Props.C01", "Ysgo.Props.C01Listener"]),
     "C02": runprop("expr", ("res", "log"), ("text",), 1500, 60000, nontrivial=lambda obs, case: any("probe(" in o for o in obs),
                    extra_streams=[{"stream": "exprsyn", "profile": "all", "quick": 6000, "thorough": 150000, "nontrivial": lambda obs, case: not obs[0].startswith(("LOADERR", "LEXERR"))}],
                    generated_facts=["Generated.EvalFacts (tools/evalfacts, go/ast): operator switch, lazy tests, same-type guard of evaluateBinaryOperation, built-in registry, token-to-operator maps == the model (Props/C02Facts: opSwitch_is_model for all operators and values, lazyTests_are_model, sameTypeGuard_is_model, builtin_registry_is_model, token_maps_are_model)"],
@@ -579,7 +646,9 @@ PROPERTIES = {
     "C05": {
         "level": "proof",
         "streams": [{"stream": "load", "profile": "mixed", "quick": 1500, "thorough": 60000, "special": special_load},
-                    {"stream": "load", "profile": "bytes", "quick": 500, "thorough": 40000, "special": special_load}],
+                    {"stream": "load", "profile": "bytes", "quick": 500, "thorough": 40000, "special": special_load},
+                    {"stream": "listener", "profile": "mutate", "quick": 1000, "thorough": 50000, "special": special_listener},
+                    {"stream": "listener", "profile": "expr", "quick": 600, "thorough": 30000, "special": special_listener}],
         "assumptions": ["the parser is an oracle of the model: its syntax-error count and node count are inputs of the load decision",
                         "never-panics inside the ANTLR runtime, generated parser and tree builder is sampled, not proved"],
         "rule": "load/mixed+bytes: valid generated scripts in random layouts, 1-3 byte/line/fragment-level mutations of them (delete, overwrite, swap, truncate, duplicate, unbalanced if, mixed tabs and spaces), fragment assemblies and raw bytes incl. NUL and invalid UTF-8; every case split across 0-3 readers (none, at node boundaries, anywhere, plus a valid second reader) with seed strings over valid and invalid alphabets, empty and wrapping int64; distinct by (oracle values, outcome)",
